@@ -887,6 +887,9 @@ func (e *Exec) assert(st *State, c *term.Term, id string) {
 		as.Trivial++
 		return
 	}
+	if v, ok := e.pinnedConst(st, c); ok && v != 0 && !st.unverified {
+		return // decided by values the path condition pins
+	}
 	e.needVerified(st)
 	neg := e.ts.Not(c)
 	var res smt.Result
